@@ -20,6 +20,13 @@ def _S(v):     # scalar-last storage of the same quaternion
     return v.vec('x', 'y', 'z', 'w')
 
 
+def _normalize_views(A, v):
+    import numpy as _np
+    q = A.Quaternion(v.vec(*Q), versor=False)
+    q.normalize()
+    return [_np.asarray(q), q.A, [q.w, q.x, q.y, q.z], q.to_array()]
+
+
 def targets():
     O = lambda A: A.common.orientation
     mk = lambda n, i, f, doc='': Target(f'C09_{n}', i, f, doc=doc)
@@ -46,6 +53,12 @@ def targets():
         mk('mul_QS', P + Q, lambda A, v: A.Quaternion(v.vec(*P), versor=False) * A.Quaternion(_S(v), versor=False, order='S')),
         mk('matmul_QH', P + Q, lambda A, v: A.Quaternion(v.vec(*P), versor=False) @ A.Quaternion(v.vec(*Q), versor=False),
            'right operand is a scalar-first Quaternion object'),
+        mk('product_SS', P + Q, lambda A, v: A.Quaternion(v.vec('b', 'c', 'd', 'a'), versor=False, order='S').product(A.Quaternion(_S(v), versor=False, order='S')),
+           'both operands are scalar-last Quaternion objects'),
+        mk('mul_SS', P + Q, lambda A, v: A.Quaternion(v.vec('b', 'c', 'd', 'a'), versor=False, order='S') * A.Quaternion(_S(v), versor=False, order='S')),
+        mk('matmul_SS', P + Q, lambda A, v: A.Quaternion(v.vec('b', 'c', 'd', 'a'), versor=False, order='S') @ A.Quaternion(_S(v), versor=False, order='S')),
+        mk('matmul_QS', P + Q, lambda A, v: A.Quaternion(v.vec(*P), versor=False) @ A.Quaternion(_S(v), versor=False, order='S')),
+        mk('normalize_views', Q, _normalize_views, 'Quaternion(v, versor=False).normalize(): the array view, .A and w/x/y/z must all be the versor'),
         mk('S_product', P + Q, lambda A, v: A.Quaternion(v.vec('b', 'c', 'd', 'a'), versor=False, order='S').product(v.vec(*Q)),
            'product of a scalar-last stored p with a scalar-first array q'),
     ]
@@ -79,7 +92,17 @@ def _impl():
         'product_QS': lambda p, q: Qn(p).product(ahrs.Quaternion(S(q), versor=False, order='S')),
         'mul_QS': lambda p, q: np.asarray(Qn(p) * ahrs.Quaternion(S(q), versor=False, order='S')),
         'matmul_QH': lambda p, q: np.asarray(Qn(p) @ Qn(q)),
+        'product_SS': lambda p, q: ahrs.Quaternion(S(p), versor=False, order='S').product(ahrs.Quaternion(S(q), versor=False, order='S')),
+        'mul_SS': lambda p, q: np.asarray(ahrs.Quaternion(S(p), versor=False, order='S') * ahrs.Quaternion(S(q), versor=False, order='S')),
+        'matmul_SS': lambda p, q: np.asarray(ahrs.Quaternion(S(p), versor=False, order='S') @ ahrs.Quaternion(S(q), versor=False, order='S')),
+        'matmul_QS': lambda p, q: np.asarray(Qn(p) @ ahrs.Quaternion(S(q), versor=False, order='S')),
+        'normalize_views': lambda q: _nv(Qn(q)),
     }
+
+
+def _nv(o):
+    o.normalize()
+    return [np.asarray(o), o.A, [o.w, o.x, o.y, o.z], o.to_array()]
 
 
 def _quats(ctx, n):
@@ -97,9 +120,9 @@ def correspondence(ctx):
     qs = _quats(ctx, n)
     one = [cm.d(Q, q) for q in qs]
     two = [{**cm.d(P, qs[i]), **cm.d(Q, qs[(3 * i + 1) % len(qs)])} for i in range(len(qs))]
-    for name in ('product', 'mul', 'matmul', 'q_prod', 'S_product', 'product_QS', 'mul_QS', 'matmul_QH'):
+    for name in ('product', 'mul', 'matmul', 'q_prod', 'S_product', 'product_QS', 'mul_QS', 'matmul_QH', 'product_SS', 'mul_SS', 'matmul_SS', 'matmul_QS'):
         ctx.correspond(f'C09_{name}', two, (lambda c, f=I[name]: f([c[k] for k in P], [c[k] for k in Q])))
-    for name in ('conj', 'conj_S', 'q_conj', 'inverse', 'inverse_versor', 'mult_L', 'mult_R', 'q_mult_L', 'q_mult_R', 'S_wxyz', 'H_wxyz'):
+    for name in ('normalize_views', 'conj', 'conj_S', 'q_conj', 'inverse', 'inverse_versor', 'mult_L', 'mult_R', 'q_mult_L', 'q_mult_R', 'S_wxyz', 'H_wxyz'):
         ctx.correspond(f'C09_{name}', one, (lambda c, f=I[name]: f([c[k] for k in Q])))
 
 
@@ -229,7 +252,49 @@ def o_operands(inp):
     return None
 
 
-ORACLES = {'algebra': o_algebra, 'inverse': o_inverse, 'scalar_last': o_scalar_last, 'operands': o_operands}
+def o_state(inp):
+    """object state and call sequences: after normalize() every view of the object is the same versor and every
+    route multiplies that versor; results of the free function are values, not a buffer shared between calls"""
+    import ahrs
+    from ahrs.common import orientation as O
+    q, p, r = (np.array(inp[k], float) for k in 'qpr')
+    for order in ('H', 'S'):
+        o = ahrs.Quaternion(q if order == 'H' else np.array([q[1], q[2], q[3], q[0]]), versor=False, order=order)
+        o.normalize()
+        u = q / np.linalg.norm(q)
+        us = u if order == 'H' else np.array([u[1], u[2], u[3], u[0]])
+        views = {'asarray': np.asarray(o, float), 'A': np.asarray(o.A, float), 'to_array': np.asarray(o.to_array(), float),
+                 'index': np.array([o[0], o[1], o[2], o[3]], float)}
+        for k, v in views.items():
+            if cm.maxabs(v, us) > TOL:
+                return {'tag': f'normalize/{order}/{k}-not-the-versor', 'observed': v, 'expected': us}
+        if cm.maxabs(np.array([o.w, o.x, o.y, o.z], float), u) > TOL:
+            return {'tag': f'normalize/{order}/wxyz-not-the-versor', 'observed': [o.w, o.x, o.y, o.z], 'expected': u}
+        if order == 'H':
+            for name, val in (('product', o.product(p)), ('q_prod', O.q_prod(o, p)), ('mul', o * p)):
+                if cm.maxabs(np.asarray(val, float), cm.qmul(u, p)) > 1e-11 * max(1, np.linalg.norm(p)):
+                    return {'tag': f'normalize/then-{name}', 'observed': val, 'expected': cm.qmul(u, p)}
+            if abs(np.linalg.norm(o) - 1) > TOL:
+                return {'tag': 'normalize/norm-of-object', 'observed': np.linalg.norm(o)}
+    # free functions: earlier results must not change when the function is called again; chained calls
+    first = O.q_prod(p.copy(), q.copy())
+    keep = np.array(first, float)
+    second = O.q_prod(q.copy(), r.copy())
+    if cm.maxabs(np.asarray(first, float), keep) > 0:
+        return {'tag': 'q_prod/earlier-result-changed-by-later-call', 'observed': np.asarray(first, float), 'expected': keep}
+    sc = max(1.0, np.linalg.norm(p)) * max(1.0, np.linalg.norm(q)) * max(1.0, np.linalg.norm(r))
+    lhs = O.q_prod(O.q_prod(p.copy(), q.copy()), r.copy())
+    rhs = O.q_prod(p.copy(), O.q_prod(q.copy(), r.copy()))
+    ref = cm.qmul(cm.qmul(p, q), r)
+    if _rel(lhs, ref, sc) > 1e-11 or _rel(rhs, ref, sc) > 1e-11:
+        return {'tag': 'q_prod/chained-calls', 'observed': [np.asarray(lhs).tolist(), np.asarray(rhs).tolist()], 'expected': ref}
+    c1 = O.q_conj(p.copy()); c2 = O.q_conj(q.copy())
+    if cm.maxabs(np.asarray(c1, float), cm.qconj(p)) > 0:
+        return {'tag': 'q_conj/earlier-result-changed-by-later-call', 'observed': c1, 'expected': cm.qconj(p)}
+    return None
+
+
+ORACLES = {'algebra': o_algebra, 'inverse': o_inverse, 'scalar_last': o_scalar_last, 'operands': o_operands, 'state': o_state}
 
 
 def search(ctx, scale):
@@ -245,6 +310,9 @@ def search(ctx, scale):
             ctx.check('inverse', inp, cm_call(o_inverse, inp), nontrivial_key=(versor, tuple(np.round(q, 6))))
         inp = {'q': q.tolist(), 'p': p.tolist()}
         ctx.check('scalar_last', inp, cm_call(o_scalar_last, inp), nontrivial_key=(tuple(np.round(q, 6)),))
+    for i in range(10 * scale):
+        inp = {'q': qs[(2 * i) % len(qs)].tolist(), 'p': qs[(7 * i + 3) % len(qs)].tolist(), 'r': qs[(5 * i + 1) % len(qs)].tolist()}
+        ctx.check('state', inp, cm_call(o_state, inp), nontrivial_key=('st', i))
     ints = [[1, 0, 0, 0], [0, 1, 0, 0], [0, 0, -1, 0], [0, 0, 0, 1], [1, 2, 3, 4], [-2, 0, 5, 1]]
     for i in range(8 * scale):
         p, q = qs[(3 * i) % len(qs)], qs[(5 * i + 1) % len(qs)]
